@@ -4,7 +4,7 @@ import itertools
 import os
 import re
 
-from ..core import Sub, fail, enc
+from ..core import Sub, fail, enc, scale
 from .. import snapshot
 
 BOUNDS = {
@@ -340,6 +340,26 @@ class Unknown(Sub):
         if out != ['e', '#NAME?']:
             return fail('%r uses the unregistered %s %s; expected #NAME?, got %r' % (
                 text, 'function' if kind == 'fn' else 'variable', nm, out), ['e', '#NAME?'], out)
+        # ... whatever listeners do: one that raises (the lookup of the name failed in the host, too) must not turn the
+        # unknown name into a value or a silent blank - an error of some code is demanded
+        if pi < 6 or kind == 'var':
+            for exc in (SyntaxError, KeyError):
+                p = env.new_parser()
+                p.set_variable('vset', 3)
+                p.set_function('KNOWNFN', lambda *a: 1)
+
+                def boom(*a, _exc=exc):
+                    raise _exc('lookup failed')
+                p.on('callVariable' if kind == 'var' else 'callFunction', boom)
+                env.evals += 1
+                try:
+                    o2 = env.out(p.parse(text))
+                except Exception as e:
+                    o2 = ['x', type(e).__name__]
+                if o2[0] != 'e':
+                    return fail('%r uses the unregistered %s %s and the %s listener raises %s: expected an error, got %r' % (
+                        text, 'function' if kind == 'fn' else 'variable', nm, 'callVariable' if kind == 'var' else 'callFunction',
+                        exc.__name__, o2), ['e', 'any code'], o2)
         return None
 
 
@@ -407,4 +427,55 @@ class Rebind(Sub):
         return None
 
 
-SUBS = [Names(), Values(), Custom(), Documented(), Predefined(), Unknown(), Rebind()]
+
+class NameScale(Sub):
+    name = 'c09.scale'
+    rule = ('size ladder of the number n of variables and of custom functions registered on one parser: each reads back / is '
+            'called with its own value (first, middle, last and every 37th), an unregistered neighbour is #NAME?, re-registering '
+            'the middle one is seen, and a second parser sees none of them; non-trivial = all')
+    min_cases = 40
+    min_nontrivial = 40
+
+    def cases(self, tier, unit):
+        for n in scale(tier):
+            yield [n]
+
+    @staticmethod
+    def nm(prefix, i):
+        return prefix + ''.join('abcdefghij'[int(d)] for d in str(i))
+
+    def check(self, env, case):
+        n = case[0]
+        env.nt()
+        p = env.new_parser()
+        q = env.new_parser()
+        for i in range(n):
+            p.set_variable(self.nm('v', i), 1000 + i)
+            p.set_function(self.nm('F', i).upper(), (lambda x, _i=i: 10 * _i + x))
+        idx = sorted(set([0, n // 2, n - 1] + list(range(0, n, 37))))
+        env.evals += 3 * len(idx) + 6
+        for i in idx:
+            r = env.out(p.parse(self.nm('v', i)))
+            if r != ['v', 1000 + i]:
+                return fail('%d variables on one parser: %s reads %r, expected %d' % (n, self.nm('v', i), r, 1000 + i), 1000 + i, r)
+            r = env.out(p.parse('%s(7)+%s' % (self.nm('F', i).upper(), self.nm('v', i))))
+            if r != ['v', 10 * i + 7 + 1000 + i]:
+                return fail('%d custom functions on one parser: %s(7)+%s gives %r, expected %d' % (
+                    n, self.nm('F', i).upper(), self.nm('v', i), r, 10 * i + 7 + 1000 + i), 10 * i + 7 + 1000 + i, r)
+            r = env.out(q.parse(self.nm('v', i)))
+            if r != ['e', '#NAME?']:
+                return fail('%d variables on parser p: a second parser reads %s as %r, expected #NAME?' % (n, self.nm('v', i), r))
+        for text in (self.nm('v', n), self.nm('F', n).upper() + '(1)', self.nm('v', n - 1) + 'x'):
+            r = env.out(p.parse(text))
+            if r != ['e', '#NAME?']:
+                return fail('%d names registered: the unregistered %s gives %r, expected #NAME?' % (n, text, r), '#NAME?', r)
+        mid = n // 2
+        p.set_variable(self.nm('v', mid), 'again')
+        p.set_function(self.nm('F', mid).upper(), lambda x: 'fn again')
+        r = env.out(p.parse('%s&"|"&%s(1)' % (self.nm('v', mid), self.nm('F', mid).upper())))
+        if r != ['v', 'again|fn again']:
+            return fail('%d names registered: after re-registering the middle ones they read %r' % (n, r), 'again|fn again', r)
+        return None
+
+
+SUBS = [Names(), Values(), Custom(), Documented(), Predefined(), Unknown(), Rebind(), NameScale()]
